@@ -286,7 +286,7 @@ def run(ctx):
         # more decimals than a double has significant digits (17, 18, 20): parameters of magnitude >= 0.1 are then written in full,
         # and the imported engine is the same engine bit for bit
         for i, rnd in ctx.cases("many decimals", ctx.scale(12, 600)):
-            d = rnd.choice([16, 17, 18, 20])
+            d = rnd.choice([17, 18, 20])  # (17 decimals are 17 significant digits for 0.1 <= |x| < 1: enough for any double)
             with fl.settings.context(decimals=d):
                 spec = E.gen_engine(rnd, activations=("General",), d=3, flags=False, max_rules=3, kinds=("integral", "ts", "tsukamoto"))
                 spec["decimals"] = d
